@@ -94,7 +94,28 @@ func (p *vxPop) newSess(name string) *vSess {
 
 func vxAllTopics() []string { return vfAllTopics() }
 
-func vxQuiet() string { return vWaitQuiet(vxAllTopics()) }
+// quiescence of the whole server; a goroutine blocked on a NIL channel can never be woken: reported at once as
+// STUCK (vWaitQuiet would wait out its 20 s and say HANG)
+func vxQuiet() string {
+	topics := vxAllTopics()
+	stuck := 0
+	for i := 0; i < 400; i++ {
+		q, w := vQuiescent(topics)
+		if q {
+			break
+		}
+		if strings.Contains(w, "(nil chan)") {
+			stuck++
+			if stuck >= 25 {
+				return "STUCK " + w
+			}
+		} else {
+			stuck = 0
+		}
+		time.Sleep(50 * time.Microsecond)
+	}
+	return vWaitQuiet(topics)
+}
 
 // hub-level quiescence while a load is held: every goroutine parked (the held one in "chan receive" on the
 // gate), hub queues empty; the queues of the paused topic are allowed to be non-empty
@@ -168,16 +189,11 @@ func (p *vxPop) teardown() {
 		p.release("ok")
 		vxQuiet()
 	}
-	for sn := range p.clogged {
-		p.unclog(sn)
-	}
 	for sn, vs := range p.sess {
 		if p.gone[sn] {
 			continue
 		}
-		globals.sessionStore.Delete(vs.s)
-		vs.s.cleanUp(true)
-		<-vs.done
+		p.hangUp(sn, vs)
 	}
 	vxQuiet()
 	for _, name := range vxAllTopics() {
@@ -194,6 +210,22 @@ func (p *vxPop) teardown() {
 	}
 	memverif.Reset()
 	// memverif.Reset recreates the store with the sys topic row only
+}
+
+// the socket closes: what the read loop's exit does (sessionStore.Delete, cleanUp).  The drain loop is stopped FIRST:
+// Session.purgeChannels (`for len(s.send) > 0 { <-s.send }`) must not compete with it for the last queued frame
+func (p *vxPop) hangUp(sn string, vs *vSess) {
+	if !p.clogged[sn] {
+		select {
+		case <-vs.done:
+		default:
+			vs.s.stop <- nil
+			<-vs.done
+		}
+	}
+	delete(p.clogged, sn)
+	globals.sessionStore.Delete(vs.s)
+	vs.s.cleanUp(true)
 }
 
 func (p *vxPop) clog(sn string) string {
@@ -532,12 +564,7 @@ func TestVerifC13x(t *testing.T) {
 				res = pop.unclog(sn)
 			case "disc":
 				if !pop.gone[sn] {
-					globals.sessionStore.Delete(vs.s)
-					vs.s.cleanUp(true)
-					if !pop.clogged[sn] {
-						<-vs.done
-					}
-					delete(pop.clogged, sn)
+					pop.hangUp(sn, vs)
 					pop.gone[sn] = true
 				} else {
 					res = "gone"
